@@ -1,7 +1,7 @@
 (** C07/C08 — LZW: agreement of the bounded decoder under any limit that fits the result
     (arbitrary data), a bound on what the in-loop check lets through, and sanity of the
     reference encoder against the decoder model on boundary-crossing inputs (computed).
-    The unbounded round-trip theorem [lzw_roundtrip] is NOT proved (see Props/C07.v). *)
+    The general round-trip theorem [lzw_roundtrip] is proved in LzwBits.v + LzwFull.v. *)
 From OxVerif Require Import Base.Util C07.Filters C07.Lzw C07.Codecs C07.ProofsBasic.
 From OxGen Require Import FilterConsts.
 Require Import Lia ZifyBool.
